@@ -352,6 +352,17 @@ def _hist_run(prog, cls, val, mode, preset):
         if isinstance(r1, Arr):
             r1.t = N.sym('junk')
         res = calc(o, Arr(R, 'r', ip))
+    elif mode == 'copy-then-original-modified':
+        # what PairTable.__setitem__ and PRISM.__init__ do: the object in use is a deep copy of the caller's; the caller
+        # then re-uses its own object with other parameters (deepcopy does not copy function objects: a lambda that reads
+        # `self` keeps reading the *original*)
+        tmpl = _build(prog, cls, val, ip)
+        o = ip.lib.deepcopy(ip, [tmpl], {}, None)
+        o.origin = 'self'
+        for k_, v_ in list(tmpl.attrs.items()):
+            if isinstance(v_, Num) and not (P.is_pw(v_.t)):
+                ip.set_attr(tmpl, k_, Num(ip.declare('changed_' + k_)), None)
+        res = calc(o, Arr(R, 'r', ip))
     else:
         raise AssertionError(mode)
     return ip, {'res': res, 'obj': o}
@@ -375,7 +386,7 @@ def rule_history(ctx, rule='R10.h'):
                 ctx.undecided(rule, cls.qualname, '%s: fresh evaluation: %s' % (tag, e), f.loc())
                 continue
             bad, und, paths = [], [], 0
-            for mode in ('sigma-reassigned', 'other-grid-before', 'result-mutated'):
+            for mode in ('sigma-reassigned', 'other-grid-before', 'result-mutated', 'copy-then-original-modified'):
                 try:
                     worlds = explore(lambda preset: _hist_run(ctx.prog, cls, val, mode, preset))
                 except (Unsupported, Raised) as e:
@@ -399,5 +410,6 @@ def rule_history(ctx, rule='R10.h'):
                 ctx.undecided(rule, cls.qualname, '%s: %s' % (tag, und[0]), f.loc())
             else:
                 ctx.holds(rule, cls.qualname, '%s: re-evaluation after sigma re-assignment / on another grid / after the result was '
-                          'edited equals a fresh potential (%d paths)' % (tag, paths), f.loc(), key=tag)
+                          'edited, and evaluation of a deep copy after the original was re-parameterised, equal a fresh potential '
+                          '(%d paths)' % (tag, paths), f.loc(), key=tag)
     ctx.floor(rule, n, 8, 'potential history obligations')
